@@ -15,6 +15,7 @@ No hooks in sc3: the library runs unmodified in an NRT process; from outside the
 only record which dispatcher is running.
 """
 import signal
+import time as _t
 from fractions import Fraction
 
 from harness.impl import c06 as c06impl
@@ -156,6 +157,39 @@ def run_hist(c):
             acts[aid] = a
         return acts[aid]
 
+    udp = {}
+    if c.get('udp'):
+        import os, socket, threading
+        seen = threading.Event()
+
+        def marker(msg, time, addr, recv_port):
+            if msg[0] == '/__sync':
+                seen.set()
+        osci.OscInterface.add_recv_func(marker)
+        udp['iface'] = osci.OscUdpInterface(57300 + (os.getpid() * 7) % 2000, port_range=200)
+        udp['iface'].start()
+        udp['sock'] = socket.socket(socket.AF_INET, socket.SOCK_DGRAM)
+        udp['sock'].bind(('127.0.0.1', 0))
+        udp['seen'] = seen
+        udp['dead'] = False
+    try:
+        return _run_ops(c, st, resps, user_fn, act_fn, log, udp)
+    finally:
+        if udp:
+            try:
+                t0 = _t.monotonic()
+                while not udp['iface']._running and _t.monotonic() - t0 < 2.0:
+                    _t.sleep(0.001)          # stop() is a no-op before the receive thread has started
+                udp['iface'].stop()
+            except Exception:
+                pass
+            udp['sock'].close()
+            osci.OscInterface._recv_functions.clear()
+
+
+def _run_ops(c, st, resps, user_fn, act_fn, log, udp):
+    import time as _time
+    rp, sac, mdl, osci, clk, main = st['rp'], st['sac'], st['mdl'], st['osci'], st['clk'], st['main']
     out = []
     for op in c['ops']:
         o = op[0]
@@ -191,6 +225,9 @@ def run_hist(c):
                 _, now, off, port, data, sender = op[:6]
                 main.elapsed_time = lambda _now=float.fromhex(now): _now
                 clk.SystemClock._elapsed_osc_offset = off
+                if udp:
+                    out.append(_recv_udp(st, udp, log, bytes.fromhex(data), sender, port))
+                    continue
                 iface = st['Iface'](port)
                 del st['queue'][:]
                 del st['order'][:]
@@ -204,27 +241,64 @@ def run_hist(c):
                     out.append('ESCAPED ' + type(e).__name__); continue
                 finally:
                     signal.setitimer(signal.ITIMER_REAL, 0)
-                msgs = []
-                for item in list(st['queue']):
-                    del log[:]
-                    del st['order'][:]
-                    exc = ''
-                    try:
-                        item()
-                    except Exception as e:          # SystemClock._run: "Always recover."
-                        exc = type(e).__name__
-                    groups = []
-                    for d in st['order']:
-                        calls = [x for x in log if x[0] == d]
-                        groups.append(d + ':' + ','.join(str(x[1]) for x in calls))
-                    pay = sorted({(fmt_pay(st, x)) for x in log})
-                    msgs.append('[' + ' '.join(groups) + (' !' + exc if exc else '') + '] ' + ' ## '.join(pay))
+                msgs = [_run_item(st, log, item) for item in list(st['queue'])]
                 out.append('recv ' + ' || '.join(msgs))
             else:
                 out.append('bad-op')
         except Exception as e:
             out.append('err ' + type(e).__name__)
     return out
+
+
+def _run_item(st, log, item, norm=None):
+    """one scheduled dispatch function (= one incoming message), as SystemClock would run it"""
+    del log[:]
+    del st['order'][:]
+    exc = ''
+    try:
+        item()
+    except Exception as e:          # SystemClock._run: "Always recover."
+        exc = type(e).__name__
+    groups = []
+    for d in st['order']:
+        calls = [x for x in log if x[0] == d]
+        groups.append(d + ':' + ','.join(str(x[1]) for x in calls))
+    recs = [norm(x) for x in log] if norm else log
+    pay = sorted({(fmt_pay(st, x)) for x in recs})
+    return '[' + ' '.join(groups) + (' !' + exc if exc else '') + '] ' + ' ## '.join(pay)
+
+
+def _recv_udp(st, udp, log, data, sender, port):
+    """the datagram travels from a plain foreign socket to the library's own UDP receive loop
+    (`OscUdpInterface._udp_run`); a marker message sent right after it (seen by a function registered with
+    the public `add_recv_func`) tells when the loop is through with it.  The ephemeral port numbers are
+    replaced by the ones of the case in what the callbacks report."""
+    import time as _time
+    iface, sock, seen = udp['iface'], udp['sock'], udp['seen']
+    real = (sock.getsockname()[1], iface.port)
+
+    def norm(x):
+        d, fid, msg, t, snd, rport = x
+        return (d, fid, msg, t, (snd[0], sender[1] if snd[1] == real[0] else snd[1]),
+                port if rport == real[1] else rport)
+    del st['queue'][:]
+    seen.clear()
+    target = ('127.0.0.1', iface.port)
+    sock.sendto(data, target)
+    sock.sendto(b'/__sync\x00,\x00\x00\x00', target)
+    msgs = []
+    deadline = _time.monotonic() + (0.3 if udp['dead'] else 20.0)
+    while True:
+        while st['queue']:
+            item = st['queue'].pop(0)
+            txt = _run_item(st, log, item, norm)
+            if seen.is_set():
+                return 'recv ' + ' || '.join(msgs)
+            msgs.append(txt)
+        if _time.monotonic() > deadline:
+            udp['dead'] = True
+            return 'DEAD ' + ' || '.join(msgs)
+        _time.sleep(0.0005)
 
 
 def fmt_pay(st, x):
@@ -265,11 +339,16 @@ def run_sysact(c):
     st = setup()
     sac = st['sac']
 
-    class Reg(sac.SystemAction):
+    class Reg(sac.CmdPeriod if c.get('cmd') else sac.SystemAction):
         _actions = dict()
+        clear_clocks = False       # documented switches of CmdPeriod: only the registry
+        free_servers = False
 
     log, acts = [], {}
     scripts = c.get('scripts', {})
+
+    def once_fn(key, *args):       # ONE function object for every do_once call
+        log.append(f'{key}({",".join(str(a) for a in args)})')
 
     def act(aid):
         if aid not in acts:
@@ -287,6 +366,8 @@ def run_sysact(c):
             Reg.remove(act(op[1]))
         elif op[0] == 'removeall':
             Reg.remove_all()
+        elif op[0] == 'once':
+            Reg.do_once(once_fn, op[1], *op[2])
 
     out = []
     for op in c['ops']:
